@@ -38,7 +38,16 @@ func vBystanderServed(r *router, b *vClient) {
 
 func vC04Setup() (*router, *vClient, *vClient) {
 	r := vNewRouter(&Config{RealmConfigs: []*RealmConfig{{URI: "realm1", AnonymousAuth: true, AllowDisclose: vBool("allowDisclose"), EnableMetaKill: true, EnableMetaModify: true}}})
-	a := vAttach(r, "realm1", nil, 32)
+	// the hostile session announces everything, roles without any feature, or
+	// only the pub/sub roles - and uses whatever it likes afterwards
+	var aHello wamp.Dict
+	switch vChoice("hostile.announces", 3) {
+	case 1:
+		aHello = wamp.Dict{"roles": wamp.Dict{"publisher": wamp.Dict{}, "subscriber": wamp.Dict{}, "caller": wamp.Dict{}, "callee": wamp.Dict{}}}
+	case 2:
+		aHello = wamp.Dict{"roles": wamp.Dict{"publisher": wamp.Dict{}, "subscriber": wamp.Dict{}}}
+	}
+	a := vAttach(r, "realm1", aHello, 32)
 	b := vAttach(r, "realm1", nil, 32)
 	vAssert("attached", a != nil && b != nil)
 	// b offers a procedure and a subscription so that a's messages are routed
